@@ -85,17 +85,19 @@ func randFrom(r *rand.Rand, alpha string, n int) string {
 }
 
 var pathPool = []string{"/", "/p", "/a/b.php", "/a/b/", "/a\\b", "/a%20b", "/\xc3\xbc", "/a/../b", "/index.php/extra", "/a.b/c-d_e~f"}
-// content types AddRequestHeader takes for a urlencoded body (round-trip oracle applies) ...
+// content types AddRequestHeader takes for a urlencoded body (round-trip oracle applies): the
+// media type up to the first ';', white space trimmed, any letter case ...
 var ctAccepted = []string{"application/x-www-form-urlencoded", "APPLICATION/X-WWW-FORM-URLENCODED",
 	"application/x-www-form-urlencoded; charset=UTF-8", "Application/X-Www-Form-Urlencoded;charset=utf-8",
-	"application/x-www-form-urlencoded;", "application/x-www-form-urlencoded;;x", "application/x-www-form-urlencoded; a=\"b;c\""}
-
-// ... and everything else (model correspondence only; the forms with white space around the media
-// type still select no processor - reported as a residual)
-var ctPool = append(append([]string{}, ctAccepted...),
+	"application/x-www-form-urlencoded;", "application/x-www-form-urlencoded;;x", "application/x-www-form-urlencoded; a=\"b;c\"",
 	"application/x-www-form-urlencoded ;charset=UTF-8", "application/x-www-form-urlencoded ", "application/x-www-form-urlencoded\t",
-	" application/x-www-form-urlencoded", "application/x-www-form-urlencodedx", "application/x-www-form-urlencoded,x",
-	"multipart/form-data; boundary=xyz", "Multipart/Form-Data", "multipart/form-datax", "text/plain", "application/json", "text/xml", "")
+	" application/x-www-form-urlencoded", "\t application/x-www-form-urlencoded \r\n; x", "application/x-www-form-urlencoded \v\f;"}
+
+// ... and everything else (model correspondence only)
+var ctPool = append(append([]string{}, ctAccepted...),
+	"application/x-www-form-urlencodedx", "application/x-www-form-urlencoded,x", "application/x-www-form- urlencoded",
+	"x application/x-www-form-urlencoded", ";application/x-www-form-urlencoded", "application/x-www-form-urlencoded x;",
+	"multipart/form-data; boundary=xyz", "Multipart/Form-Data", "multipart/form-datax", " multipart/form-data", "text/plain", "application/json", "text/xml", "")
 var ctlPool = []string{"", "", "JSON", "json", "XML", "URLENCODED", "RAW", "MULTIPART", "FOO"}
 
 func cookieSafe(p pair) bool {
